@@ -50,6 +50,14 @@ type faultRule struct {
 type faultPlan struct {
 	Rules []faultRule `json:"rules"`
 
+	// gate: the call's first Domain / GenesisDomain lookup blocks (after announcing itself on
+	// entered) until the harness closes release: a beacon node that is slow to answer, with the
+	// harness deciding what else happens meanwhile. No verdict depends on the waiting itself.
+	gate     bool
+	gateOnce sync.Once
+	entered  chan struct{}
+	release  chan struct{}
+
 	mu      sync.Mutex
 	lookups map[string]int // per endpoint (and epAny for all)
 	fired   map[string]int // "endpoint/mode" -> faults served
@@ -90,10 +98,23 @@ func newFaultPlan(rng *rand.Rand) *faultPlan {
 	return p
 }
 
+func newGatePlan() *faultPlan {
+	return &faultPlan{lookups: map[string]int{}, fired: map[string]int{}, gate: true, entered: make(chan struct{}), release: make(chan struct{})}
+}
+
 // check is called at the start of every guarded lookup; a non-nil error is the injected fault.
 func (p *faultPlan) check(ctx context.Context, endpoint string) error {
 	if p == nil {
 		return nil
+	}
+	if p.gate && (endpoint == epDomain || endpoint == epGenesisDomain) {
+		p.gateOnce.Do(func() {
+			close(p.entered)
+			select {
+			case <-p.release:
+			case <-ctx.Done():
+			}
+		})
 	}
 	p.mu.Lock()
 	defer p.mu.Unlock()
